@@ -246,19 +246,35 @@ tl::expected<std::string, errors> canonicalize_protocol(
     return std::string(input);
   }
 
+  // Slow path: the definition. Let parseResult be the result of running the
+  // basic URL parser given value followed by "://dummy.test"; return its scheme.
+  // The parser accepts more than a bare scheme (it drops leading C0 control or
+  // space and any ASCII tab or newline, and stops the scheme at the first ':'),
+  // so whatever the fast path cannot classify is decided here.
+  const auto slow_path = [&input]() -> tl::expected<std::string, errors> {
+    auto dummy_url = ada::parse<url_aggregator>(
+        std::string(input) + "://dummy.test", nullptr);
+    if (!dummy_url) {
+      return tl::unexpected(errors::type_error);
+    }
+    std::string_view protocol = dummy_url->get_protocol();
+    protocol.remove_suffix(1);
+    return std::string(protocol);
+  };
+
   // Fast path: validate scheme chars and check for uppercase
   // First char must be alpha (not +, -, ., or digit)
   uint8_t first_flags = char_class_table[static_cast<uint8_t>(input[0])];
   if (!(first_flags & CHAR_SCHEME) || input[0] == '+' || input[0] == '-' ||
       input[0] == '.' || unicode::is_ascii_digit(input[0])) {
-    return tl::unexpected(errors::type_error);
+    return slow_path();
   }
 
   uint8_t needs_lowercase = first_flags & CHAR_UPPER;
   for (size_t i = 1; i < input.size(); i++) {
     uint8_t flags = char_class_table[static_cast<uint8_t>(input[i])];
     if (!(flags & CHAR_SCHEME)) {
-      return tl::unexpected(errors::type_error);
+      return slow_path();
     }
     needs_lowercase |= flags & CHAR_UPPER;
   }
